@@ -65,6 +65,46 @@ func (p *Prog) stringValues(v ssa.Value, depth int) (vals []string, ok bool) {
 			vals = append(vals, s...)
 		}
 		return uniq(vals), true
+	case *ssa.UnOp, *ssa.Field:
+		// a struct field: every value stored into it anywhere (field-based; only if its address is never handed out)
+		var fv *types.Var
+		switch y := x.(type) {
+		case *ssa.UnOp:
+			if fa, ok := y.X.(*ssa.FieldAddr); ok && y.Op == token.MUL {
+				fv = fieldOf(fa)
+			}
+		case *ssa.Field:
+			fv = fieldOfField(y)
+		}
+		if fv == nil || fv.Pkg() == nil || !strings.HasPrefix(fv.Pkg().Path(), modPath) {
+			return nil, false
+		}
+		for _, fa := range p.fields().addrs[fv] {
+			for _, ref := range *fa.Referrers() {
+				switch u := ref.(type) {
+				case *ssa.UnOp:
+				case *ssa.Store:
+					if u.Addr != ssa.Value(fa) {
+						return nil, false
+					}
+				case *ssa.DebugRef:
+				default:
+					return nil, false
+				}
+			}
+		}
+		stores := p.fieldStores(fv)
+		if len(stores) == 0 {
+			return nil, false
+		}
+		for _, sv := range stores {
+			a, ok := p.stringValues(sv, depth+1)
+			if !ok {
+				return nil, false
+			}
+			vals = append(vals, a...)
+		}
+		return uniq(vals), true
 	}
 	return nil, false
 }
@@ -652,6 +692,44 @@ func checkAborts(p *Prog, res *Result) {
 		}
 		return f
 	}
+	// the shim's streaming list: its own body, its literals, and functions that run only inside it (called or started
+	// with go from it and from nowhere else)
+	var runsOnlyFrom func(f, root *ssa.Function, d int) bool
+	runsOnlyFrom = func(f, root *ssa.Function, d int) bool {
+		if f == root {
+			return true
+		}
+		if d > 3 || f.Synthetic != "" || p.addressTaken(f) {
+			return false
+		}
+		p.buildCallers()
+		for _, cs := range p.callers[f] {
+			if cs.Common().IsInvoke() {
+				return false
+			}
+		}
+		p.buildCallersLite()
+		if len(p.staticCallers[f]) == 0 {
+			return false
+		}
+		for _, cs := range p.staticCallers[f] {
+			if !runsOnlyFrom(outermost(cs.Parent()), root, d+1) {
+				return false
+			}
+		}
+		return true
+	}
+	inStreamingList := func(f *ssa.Function) bool {
+		for root := range lr.shimImpl {
+			if root.Name() != "ListByStream" {
+				continue
+			}
+			if outermost(f) == root || runsOnlyFrom(outermost(f), root, 0) {
+				return true
+			}
+		}
+		return false
+	}
 	abortCnt := map[*ssa.Function]map[string]int{}
 	for _, f := range p.AllFuncs {
 		if f.Synthetic != "" {
@@ -710,7 +788,7 @@ func checkAborts(p *Prog, res *Result) {
 					res.ok("C20-R2", construct, p.pos(ins.Pos()), "accepted: slot-ring capacity assertion of the event sink (more unresolved revisions than slots); not driven by request contents")
 				case what == "os.Exit" && callsRecover(f):
 					res.ok("C20-R2", construct, p.pos(ins.Pos()), "accepted: deferred panic handler (calls recover()): turns a panic that is already happening into an exit, not an abort of its own")
-				case lr.shimImpl[outermost(f)] && outermost(f).Name() == "ListByStream":
+				case inStreamingList(f):
 					res.ok("C20-R2", construct, p.pos(ins.Pos()), "accepted: nil stream response from the backend (internal invariant of the streaming list, not request-driven)")
 				default:
 					res.bad("C20-R2", construct, p.pos(ins.Pos()), "an explicit abort is reachable from a request entry point and is not in an accepted role: a request reaching it crashes the node")
@@ -1070,6 +1148,27 @@ func (p *Prog) allocSitesOf(v ssa.Value, depth int, seen map[ssa.Value]bool) ([]
 					return nil, false
 				}
 				o, ok := p.allocSitesOf(a, depth+1, seen)
+				if !ok {
+					return nil, false
+				}
+				out = append(out, o...)
+			}
+		case *ssa.UnOp, *ssa.Field:
+			// read from a field of a repo struct (a task descriptor): whatever is stored into that field anywhere
+			var fv *types.Var
+			if u, ok := y.(*ssa.UnOp); ok && u.Op == token.MUL {
+				if fa, ok := u.X.(*ssa.FieldAddr); ok {
+					fv = fieldOf(fa)
+				}
+			}
+			if fx, ok := y.(*ssa.Field); ok {
+				fv = fieldOfField(fx)
+			}
+			if fv == nil || fv.Pkg() == nil || !strings.HasPrefix(fv.Pkg().Path(), modPath) || len(p.fields().stores[fv]) == 0 {
+				return nil, false
+			}
+			for _, st := range p.fields().stores[fv] {
+				o, ok := p.allocSitesOf(st.Val, depth+1, seen)
 				if !ok {
 					return nil, false
 				}
